@@ -9,5 +9,8 @@ CONSTANTS
   WriterFollowsOwnSCS = TRUE
   HsOrder = "serial"
   HsReadExact = TRUE
+  ScsSids <- SidClasses
+  ReaderScsAnySid = TRUE
+  LazyFlushTypes = {}
 INVARIANTS NoDesync Emit
 CHECK_DEADLOCK FALSE
